@@ -72,7 +72,7 @@ func ParseRaceText(text string) []RaceReport {
 			}
 			if inAccess && !gotTop && t != "" && !strings.HasPrefix(l, "      ") && strings.HasPrefix(l, "  ") {
 				fn := t
-				if j := strings.Index(fn, "("); j > 0 {
+				if j := strings.LastIndex(fn, "("); j > 0 {
 					fn = fn[:j]
 				}
 				if strings.HasPrefix(fn, "runtime.") || strings.HasPrefix(fn, "sync/atomic.") || strings.HasPrefix(fn, "internal/") {
